@@ -103,6 +103,9 @@ package signing_proposal_fsm
 //@   ensures[C05.reject,C06.reject,C18.reject] err != nil ==> unchanged("*internal.DumpedMachineStatePayload", "*internal.SigningConfirmation", "*internal.SigningProposalParticipant", "map[int]*internal.SigningProposalParticipant")
 // an idle round accepts every well-formed proposal (nothing but the request's own validation can refuse it)
 //@   erroronly[C06.accepts] Validate Marshal | !isStartReq(args)
+// what the round keeps as the proposal's payload is serialised from this request's tasks in this very call (never a
+// payload kept from an earlier batch, whatever the batch identifier)
+//@   ensures[C03.src.current] err == nil ==> fresh(sp(m).SrcPayload)
 //@   ensures[C06.start] err == nil ==> isStartReq(args) && outEvent == inEvent && sp(m) == old(sp(m)) && sp(m).BatchID == startReq(args).BatchID && len(sp(m).BatchID) > 0 && sp(m).InitiatorId == startReq(args).ParticipantId && sgnQ(m.payload) != nil && fresh(sgnQ(m.payload)) && (forall k int :: (k in sgnQ(m.payload)) == old(k in dkgQ(m.payload))) && len(sgnQ(m.payload)) == old(len(dkgQ(m.payload)))
 //@   ensures[C06.start.records,C10.batch.fresh] err == nil ==> (forall k int :: k in sgnQ(m.payload) ==> sgnQ(m.payload)[k] != nil && fresh(sgnQ(m.payload)[k]) && sgnQ(m.payload)[k].Status == internal.SigningAwaitPartialSigns && sgnQ(m.payload)[k].Username == old(dkgQ(m.payload)[k].Username) && sgnQ(m.payload)[k].Error == nil && sgnQ(m.payload)[k].PartialSigns == nil)
 //@   ensures[C06.start.inj] err == nil ==> injSgn(sgnQ(m.payload))
